@@ -140,7 +140,14 @@ def run(ctx):
     from rules import c05 as _c05
 
     _c05.r05_3_literal_op_lists(ctx)
-    from rules import c12 as _c12
+    from rules import c12 as _c12, c02 as _c02
+    from rules.lowering_sem import r01_15_pipeline
+
+    # a factor can be any expression: a loop, a recursive call, a variable handed over by reference. The passes between the
+    # expression and the TEAL text keep its meaning (shared with C01 / C02)
+    _c02.r02_4_recursion_guards(ctx)
+    _c02.r02_1_call_site(ctx)
+    r01_15_pipeline(ctx)
 
     _c12.r12_1_sites(ctx)  # constant factors: with assembleConstants every factor site still loads the constant written there (shared with C12)
     return (
